@@ -8,7 +8,7 @@ PRIM_WRITE = {"fwrite", "fflush", "fclose", "write", "close", "ftruncate"}
 PRIM_READ = {"fread", "fseek", "read", "lseek", "fopen", "open"}
 PRIMS = PRIM_WRITE | PRIM_READ
 LEGACY_FILES = ("dfsd.c", "dfgr.c", "dfr8.c", "dfan.c", "dfp.c", "df24.c", "dfstubs.c", "dfcomp.c", "dfjpeg.c", "dfunjpeg.c", "dfimcomp.c",
-                "dfrle.c", "dfutil.c", "dfufp2i.c", "dfgroup.c", "dfconv.c", "dfknat.c", "dfkswap.c", "hcompri.c", "vconv.c")
+                "dfrle.c", "dfutil.c", "dfufp2i.c", "dfgroup.c", "dfconv.c", "dfknat.c", "dfkswap.c", "vconv.c")
 
 
 # release functions and the open calls that make the released handle a read-only one
@@ -528,7 +528,10 @@ def rule_F4(ctx):
     for nm, f in sorted(funcs.items()):
         if not any((c[1] in W) if c[1] else True for _, _, _, c in f.calls()):
             continue
-        if _layer(f) == "legacy" and ctx.tier != "thorough":
+        if _layer(f) == "legacy":
+            # the single-file DF* interfaces and the format converters are outside the workload classes C16 quantifies over
+            # (H/V/SD/GR/AN); their 16 candidate sites were never replayed and are therefore neither armed nor listed
+            # (DESIGN 11.4)
             continue
         todo.append(nm)
     _PAR.update(prog=prog, W=W, W0=W0, funcs=funcs)
